@@ -68,8 +68,14 @@ pub fn gen_case(t: &mut Tape, feature_unimock: bool) -> Case {
         body.push_str(&format!("    let __a{i} = format!(\"{{:?}}\", {});\n", p.name));
         parts.push(format!("__a{i}.as_str()"));
     }
+    // `?Send`: the fn's future (and the hand-written impl's) may then hold a !Send value across an await
+    let maybe_send = is_async && t.chance(1, 3);
     if is_async {
-        body.push_str("    rt::yield_once().await;\n");
+        if maybe_send {
+            body.push_str("    let __rc = ::std::rc::Rc::new(0u8);\n    rt::yield_once().await;\n    let _ = *__rc;\n");
+        } else {
+            body.push_str("    rt::yield_once().await;\n");
+        }
     }
     let args = if parts.is_empty() { "String::new()".to_string() } else { format!("[{}].join(\",\")", parts.join(", ")) };
     body.push_str(&format!("    let __r = format!(\"F|{{}}|{{}}|{{}}\", __id, {args}, {name_expr});\n    rt::trace(__r.clone());\n"));
@@ -86,6 +92,10 @@ pub fn gen_case(t: &mut Tape, feature_unimock: bool) -> Case {
         if !opts.iter().any(|x| x.split(' ').next() == o.split(' ').next()) {
             opts.push(o.to_string());
         }
+    }
+    if maybe_send {
+        let at = t.choose(opts.len() + 1);
+        opts.insert(at, "?Send".to_string());
     }
     let attr = format!("{}TheTrait{}", *t.pick(&["", "pub ", "pub(crate) "]), opts.iter().map(|o| format!(", {o}")).collect::<String>());
 
@@ -141,6 +151,9 @@ pub fn gen_case(t: &mut Tape, feature_unimock: bool) -> Case {
     }
     if is_async {
         classes.push("async");
+    }
+    if maybe_send {
+        classes.push("maybe_send_with_not_send_future");
     }
     if borrowed_ret {
         classes.push("borrowed_return");
